@@ -257,6 +257,10 @@ ArithOps == {"+", "-", "*", "/", "%", "^", "//"}
 RECURSIVE FindReq(_, _, _), FindLoaded(_, _, _)
 FindReq(req, s, i) == IF i > Len(req) THEN 0 ELSE IF req[i].s = s THEN i ELSE FindReq(req, s, i + 1)
 FindLoaded(ld, s, i) == IF i > Len(ld) THEN 0 ELSE IF ld[i].s = s THEN i ELSE FindLoaded(ld, s, i + 1)
+\* two require strings that denote the same module root are the same module (one file reached through
+\* different spellings): the loaded-table is keyed by the string of the FIRST req entry with that root
+RECURSIVE CanonReq(_, _, _)
+CanonReq(req, root, i) == IF req[i].root = root THEN req[i].s ELSE CanonReq(req, root, i + 1)
 \* start executing the statements of block b; restore env `renv` when the block is left (-1: keep the
 \* block's final environment, used by `repeat` whose condition sees the body's locals). The frame
 \* records in vs the block-level environment reached so far (needed by `continue` inside `repeat`).
@@ -475,10 +479,11 @@ CallBi(P, m, name, args) ==
          ELSE RetV([m EXCEPT !.log = Append(m.log, [f |-> name, a |-> RenderAll(m, args)])], <<>>)
     [] name = "require" ->
          IF a1.t # "str" THEN Err(m, "require: argument is not a string")
-         ELSE LET r == FindReq(P.req, a1.s, 1) IN LET c == FindLoaded(m.loaded, a1.s, 1) IN
+         ELSE LET r == FindReq(P.req, a1.s, 1) IN
               IF r = 0 THEN Err(m, "require: unknown module " \o a1.s)
-              ELSE IF c # 0 THEN (IF m.loaded[c].done THEN Ret1(m, m.loaded[c].v) ELSE Err(m, "require: cycle through " \o a1.s))
-              ELSE LET m1 == [m EXCEPT !.loaded = Append(@, [s |-> a1.s, v |-> Nil, nret |-> 0, done |-> FALSE])] IN
+              ELSE LET cs == CanonReq(P.req, P.req[r].root, 1) IN LET c == FindLoaded(m.loaded, cs, 1) IN
+              IF c # 0 THEN (IF m.loaded[c].done THEN Ret1(m, m.loaded[c].v) ELSE Err(m, "require: cycle through " \o a1.s))
+              ELSE LET m1 == [m EXCEPT !.loaded = Append(@, [s |-> cs, v |-> Nil, nret |-> 0, done |-> FALSE])] IN
                    LET m2 == PushK(m1, Frame("reqret", 0, Len(m1.loaded), <<>>, m.env)) IN
                    LET m3 == NewScopeIn(m2, 1, <<>>) IN
                    EnterBlock(P, m3, P.req[r].root, m3.env)
